@@ -106,6 +106,25 @@ def check_while_bounded(prog, run, rule):
             if not isinstance(w, ast.While):
                 continue
             n += 1
+            if any(isinstance(y_, (ast.Yield, ast.YieldFrom)) for y_ in ast.walk(w)):
+                # the loop of a generator runs one step per element its consumer asks for: it is as bounded as its consumers are - every
+                # `for` over a call of this generator must take a bounded slice of it (next() takes one element)
+                users, unbounded = 0, []
+                for q2, fi2 in prog.functions.items():
+                    for f_ in ast.walk(fi2.node):
+                        if isinstance(f_, (ast.For, ast.comprehension)) and any(isinstance(c_, ast.Call) and isinstance(c_.func, ast.Name) and c_.func.id == fi.node.name for c_ in ast.walk(f_.iter)):
+                            users += 1
+                            it_ = f_.iter
+                            sliced = isinstance(it_, ast.Call) and ast.unparse(it_.func).split(".")[-1] == "islice" and len(it_.args) >= 2
+                            zipped = isinstance(it_, ast.Call) and ast.unparse(it_.func) == "zip" and any(isinstance(a_, ast.Call) and ast.unparse(a_.func) == "range" for a_ in it_.args)
+                            if not (sliced or zipped):
+                                unbounded.append(q2)
+                bounded = not unbounded
+                run.oblige(rule, f"{q}: generator loop while {ast.unparse(w.test)[:40]}", bounded, f"{users} consuming loops, all over a bounded slice" if bounded else f"consumed without a bound in {unbounded}")
+                if not bounded:
+                    run.fail(Finding(rule, q, f"generator loop consumed without a bound in {', '.join(unbounded)}", "loop without an iteration bound: may not terminate",
+                                     file=str(prog.modules[fi.module].path), line=w.lineno))
+                continue
             counters = {s.target.id for s in w.body if isinstance(s, ast.AugAssign) and isinstance(s.target, ast.Name) and isinstance(s.op, ast.Add)}
             bounded = False
             for s in ast.walk(w):
